@@ -12,16 +12,9 @@ Proof.
   rewrite andb_true_iff. intros [Hx Ht]. destruct (cf_num x =? n); [intros E; inversion E; subst; exact Hx|now apply IH].
 Qed.
 
-Lemma output_ok t : tex_in_range t ->
-  (let ow := t_w t + t_ox t in
-   let oh := t_h t + t_oy t in
-   if (two32 <=? ow) || (two32 <=? oh) then Panic P_OVERFLOW
-   else if USIZE <=? 4 * ow * oh then Panic P_OVERFLOW
-   else if ISIZE_MAX <? 4 * ow * oh then Panic P_CAPACITY
-   else if ALLOC_LIMIT <? 4 * ow * oh then Panic P_ALLOC
-   else from_raw ow oh (4 * ow * oh)) = Ok tt.
+Lemma output_ok t : tex_in_range t -> output_image None t = Ok tt.
 Proof.
-  intros (Hw & Hh & Hx & Hy & Bx & By & Ha). cbv zeta.
+  intros (Hw & Hh & Hx & Hy & Bx & By & Ha). unfold output_image. cbv zeta.
   set (ow := t_w t + t_ox t) in *. set (oh := t_h t + t_oy t) in *.
   assert (0 <= ow) by (unfold ow; lia). assert (0 <= oh) by (unfold oh; lia).
   unfold ALLOC_LIMIT in *.
@@ -33,54 +26,100 @@ Proof.
   unfold from_raw. destruct (Z.leb_spec (4 * ow * oh) (4 * ow * oh)); [reflexivity|lia].
 Qed.
 
-(* (1) a consistent texture is extracted, with or without the guard *)
-Theorem extract_consistent_ok tbl guard t :
-  tex_consistent tbl t -> tex_in_range t -> produce_image tbl guard t = Ok tt.
+(* with the pixel bound of fix d8a7ff5: whatever the offsets are, the padded image is produced or refused *)
+Lemma output_bound_total b t : 0 <= b -> 4 * b <= ALLOC_LIMIT -> ok_or_err (output_image (Some b) t).
 Proof.
-  intros (c & Fc & Bp & Id & Len) R. unfold produce_image. rewrite Fc.
+  intros Hb Ha. unfold output_image. cbv zeta.
+  set (ow := t_w t + t_ox t). set (oh := t_h t + t_oy t).
+  destruct ((two32 <=? ow) || (two32 <=? oh) || (b <? ow * oh)) eqn:E; [exact I|].
+  apply orb_false_iff in E. destruct E as [_ E]. apply Z.ltb_ge in E.
+  destruct (Z.ltb_spec ALLOC_LIMIT (4 * ow * oh)); [lia|].
+  unfold from_raw. destruct (Z.leb_spec (4 * ow * oh) (4 * ow * oh)); [exact I|lia].
+Qed.
+Lemma output_bound_ok b t : 4 * b <= ALLOC_LIMIT -> tex_dims_ok t ->
+  t_w t + t_ox t < two32 -> t_h t + t_oy t < two32 -> (t_w t + t_ox t) * (t_h t + t_oy t) <= b ->
+  output_image (Some b) t = Ok tt.
+Proof.
+  intros Ha _ B1 B2 Hp. unfold output_image. cbv zeta.
+  set (ow := t_w t + t_ox t) in *. set (oh := t_h t + t_oy t) in *.
+  destruct (Z.leb_spec two32 ow); [lia|]. destruct (Z.leb_spec two32 oh); [lia|]. cbn [orb].
+  destruct (Z.ltb_spec b (ow * oh)); [lia|].
+  destruct (Z.ltb_spec ALLOC_LIMIT (4 * ow * oh)); [lia|].
+  unfold from_raw. destruct (Z.leb_spec (4 * ow * oh) (4 * ow * oh)); [reflexivity|lia].
+Qed.
+
+(* the common prefix: a consistent texture reaches the output step *)
+Lemma consistent_prefix tbl guard bound t :
+  tex_consistent tbl t -> 0 <= t_w t -> 0 <= t_h t -> produce_image tbl guard bound t = output_image bound t.
+Proof.
+  intros (c & Fc & Bp & Id & Len) Hw Hh. unfold produce_image. rewrite Fc.
   destruct (Z.eqb_spec (t_len t) (cf_bpp c * t_w t * t_h t)) as [_|N]; [|contradiction]. rewrite andb_false_r.
-  assert (Hwh : 0 <= t_w t * t_h t) by (destruct R as (? & ? & _); nia).
+  assert (Hwh : 0 <= t_w t * t_h t) by nia.
   assert (T : transcode_len c (t_len t) = Ok (4 * t_w t * t_h t)).
   { unfold transcode_len. destruct (cf_ident c) eqn:I.
     - rewrite Len, (Id eq_refl). reflexivity.
     - rewrite Len. replace (cf_bpp c * t_w t * t_h t) with ((t_w t * t_h t) * cf_bpp c) by ring.
       rewrite Z.mod_mul by lia. rewrite Z.eqb_refl, Z.div_mul by lia. f_equal. ring. }
   rewrite T. cbn [obind]. unfold from_raw at 1.
-  destruct (Z.leb_spec (4 * t_w t * t_h t) (4 * t_w t * t_h t)); [|lia]. cbn [obind].
-  now apply output_ok.
+  destruct (Z.leb_spec (4 * t_w t * t_h t) (4 * t_w t * t_h t)); [|lia]. reflexivity.
+Qed.
+
+(* (1) a consistent texture is extracted, with or without the guard (and, with the pixel bound, when it is within it) *)
+Theorem extract_consistent_ok tbl guard t :
+  tex_consistent tbl t -> tex_in_range t -> produce_image tbl guard None t = Ok tt.
+Proof.
+  intros C R. rewrite (consistent_prefix tbl guard None t C); [now apply output_ok | |]; destruct R as (? & ? & _); lia.
+Qed.
+Theorem extract_consistent_ok_bound tbl guard b t :
+  4 * b <= ALLOC_LIMIT -> tex_consistent tbl t -> tex_dims_ok t ->
+  t_w t + t_ox t < two32 -> t_h t + t_oy t < two32 -> (t_w t + t_ox t) * (t_h t + t_oy t) <= b ->
+  produce_image tbl guard (Some b) t = Ok tt.
+Proof.
+  intros Ha C D B1 B2 Hp. rewrite (consistent_prefix tbl guard (Some b) t C); [now apply output_bound_ok | |]; destruct D as (? & ? & _); lia.
 Qed.
 
 (* (2) with the guard, an inconsistent texture is a diagnostic *)
-Theorem extract_inconsistent_err tbl t c :
+Theorem extract_inconsistent_err tbl bound t c :
   find_fmt tbl (t_fmt t) = Some c -> t_len t <> cf_bpp c * t_w t * t_h t ->
-  produce_image tbl true t = Err E_TEXSIZE.
+  produce_image tbl true bound t = Err E_TEXSIZE.
 Proof.
   intros Fc N. unfold produce_image. rewrite Fc.
   destruct (Z.eqb_spec (t_len t) (cf_bpp c * t_w t * t_h t)); [contradiction|reflexivity].
 Qed.
 
-(* (3) hence with the guard: Ok or Err for every format number, size and data length *)
-Theorem extract_total_guarded tbl t :
-  tbl_wf tbl = true -> tex_in_range t -> ok_or_err (produce_image tbl true t).
+(* (3) hence with the guard: Ok or Err for every format number, size and data length -- before fix d8a7ff5 for
+   offsets whose padded image fits the address space, after it for every offset *)
+Theorem extract_total_guarded tbl bound t :
+  tbl_wf tbl = true -> bound_ok bound -> tex_ok_for bound t -> ok_or_err (produce_image tbl true bound t).
 Proof.
-  intros W R. destruct (find_fmt tbl (t_fmt t)) as [c|] eqn:Fc.
+  intros W Bk R. destruct (find_fmt tbl (t_fmt t)) as [c|] eqn:Fc.
   - destruct (Z.eq_dec (t_len t) (cf_bpp c * t_w t * t_h t)) as [E|N].
-    + rewrite (extract_consistent_ok tbl true t); [exact I| |exact R].
-      pose proof (find_fmt_wf _ _ _ W Fc) as Wc. unfold cfmt_wf in Wc. rewrite andb_true_iff, orb_true_iff in Wc.
-      destruct Wc as [P Q]. exists c. repeat split; auto. { now apply Z.ltb_lt. }
-      intros Idn. destruct Q as [Q|Q]; [rewrite Idn in Q; discriminate|now apply Z.eqb_eq].
-    + now rewrite (extract_inconsistent_err tbl t c Fc N).
+    + assert (C : tex_consistent tbl t).
+      { pose proof (find_fmt_wf _ _ _ W Fc) as Wc. unfold cfmt_wf in Wc. rewrite andb_true_iff, orb_true_iff in Wc.
+        destruct Wc as [P Q]. exists c. repeat split; auto. { now apply Z.ltb_lt. }
+        intros Idn. destruct Q as [Q|Q]; [rewrite Idn in Q; discriminate|now apply Z.eqb_eq]. }
+      destruct bound as [b|]; cbn [tex_ok_for bound_ok] in R, Bk.
+      * rewrite (consistent_prefix tbl true (Some b) t C); [|destruct R as (? & ? & _); lia|destruct R as (? & ? & _); lia].
+        destruct Bk. now apply output_bound_total.
+      * rewrite (extract_consistent_ok tbl true t C R). exact I.
+    + now rewrite (extract_inconsistent_err tbl bound t c Fc N).
   - unfold produce_image. rewrite Fc. exact I.
 Qed.
+
+(* the defect repaired by d8a7ff5, as a statement about the model: without the bound a large offset aborts *)
+Theorem extract_offset_refuted :
+  produce_image [mkCF 1 4 true] true None (mkTex 1 32 16 2048 2147483647 0) = Panic P_ALLOC /\
+  produce_image [mkCF 1 4 true] true (Some 67108864) (mkTex 1 32 16 2048 2147483647 0) = Err E_TEXBOUND.
+Proof. split; vm_compute; reflexivity. Qed.
 
 (* (4) without the guard the two reproduced panics: a doubled width ("size error?!") and an odd data size
        (assert_eq! in ColorBytes::decode) *)
 Definition tbl0 : list cfmt := [mkCF 1 4 true; mkCF 3 2 false; mkCF 5 2 false; mkCF 7 1 false].
 Theorem extract_total_refuted :
-  (produce_image tbl0 false (mkTex 1 4 2 16 0 0) = Panic P_EXPECT) /\
-  (produce_image tbl0 false (mkTex 3 2 2 7 0 0) = Panic P_ASSERT) /\
-  (produce_image tbl0 true (mkTex 1 4 2 16 0 0) = Err E_TEXSIZE) /\
-  (produce_image tbl0 true (mkTex 3 2 2 7 0 0) = Err E_TEXSIZE).
+  (produce_image tbl0 false None (mkTex 1 4 2 16 0 0) = Panic P_EXPECT) /\
+  (produce_image tbl0 false None (mkTex 3 2 2 7 0 0) = Panic P_ASSERT) /\
+  (produce_image tbl0 true None (mkTex 1 4 2 16 0 0) = Err E_TEXSIZE) /\
+  (produce_image tbl0 true None (mkTex 3 2 2 7 0 0) = Err E_TEXSIZE).
 Proof. repeat split; vm_compute; reflexivity. Qed.
 
 (* unguarded, but consistent: fine (the guard only adds errors) *)
